@@ -1,15 +1,46 @@
 import Poly.Generated.Thresholds
+import Poly.Util.Proto
 /- Sweep driver: evaluates every generated threshold definition on the same (a, b) grid as the Go program
-   that holds the source expressions verbatim. Validates the translator's rendering of Go arithmetic. -/
+   that holds the source expressions verbatim (validates the translator's rendering of Go arithmetic), and the
+   `quorum` family: the behaviour the generated definitions predict for the real ledgers (first approval count
+   at which they fire; m of the operator address). -/
 open Poly.Generated.Thresholds
+open Poly
+
+/-- Least k in 1..n with `p k`, else -1 (the ledgers count the approver before testing the threshold). -/
+def firstFire (p : Int → Bool) (n : Nat) : Int :=
+  match (List.range n).find? (fun (i : Nat) => p ((i : Int) + 1)) with
+  | some i => (i : Int) + 1
+  | none => -1
+
+def quorumStep (_ : Unit) (toks : List String) : Unit × String :=
+  match toks with
+  | ["fire", site, ns] =>
+    let n := Proto.natOf ns
+    let r : Option Int :=
+      if site == "nodemgr" then some (firstFire (fun k => nodemgr_CheckConsensusSigns0 k n) n)
+      else if site == "vote" then some (firstFire (fun k => vote_CheckVotes0 k n) n)
+      else if site == "sigmgr" then some (firstFire (fun k => sigmgr_CheckSigns1 k n && !(sigmgr_CheckSigns0 k n)) n)
+      else none
+    ((), match r with | some v => toString v | none => "bad-op")
+  | ["opaddr", _, ns] =>
+    let n := Proto.natOf ns
+    -- MULTI_SIG_MAX_PUBKEY_SIZE = 16: above it the program encoder fails and the empty address is returned
+    if n > 16 then ((), "empty-address")
+    else ((), toString (types_AddressFromBookkeepers0 n))
+  | _ => ((), "bad-op")
 
 def main (args : List String) : IO Unit := do
-  let lo := (args[0]!).toInt!
-  let hi := (args[1]!).toInt!
-  let out ← IO.getStdout
-  let mut a := lo
-  while a ≤ hi do
-    for b in [a, a - 1, a + 1, Int.tdiv (2 * a) 3, Int.tdiv (2 * a + 2) 3, Int.tdiv a 3, 3 * a, 0] do
-      out.putStrLn (String.intercalate " " (toString a :: toString b :: sweepEval a b))
-    a := a + 1
-  out.flush
+  match args with
+  | ["quorum"] => Proto.run () quorumStep
+  | [los, his] =>
+    let lo := los.toInt!
+    let hi := his.toInt!
+    let out ← IO.getStdout
+    let mut a := lo
+    while a ≤ hi do
+      for b in [a, a - 1, a + 1, Int.tdiv (2 * a) 3, Int.tdiv (2 * a + 2) 3, Int.tdiv a 3, 3 * a, 0] do
+        out.putStrLn (String.intercalate " " (toString a :: toString b :: sweepEval a b))
+      a := a + 1
+    out.flush
+  | _ => IO.eprintln "usage: drv_thresholds quorum | drv_thresholds <lo> <hi>"
